@@ -1973,6 +1973,23 @@ def transform_field_checks():
     except Exception as e:      # pylint: disable=broad-except
       problem = 'raised %s: %s' % (type(e).__name__, str(e)[:80])
     out0.append((label, problem))
+  # a refused use_value_spec leaves the value as it was (not bound to the spec it violates)
+  for cname, mkv, mks in (('List', lambda: P.List([5, 'a']), lambda: T.List(T.Int())), ('Dict', lambda: P.Dict(a='x', b=2), lambda: T.Dict([('a', T.Int()), ('c', T.Int(default=7))])),
+                          ('Dict-nested', lambda: P.Dict(x=P.Dict(a='bad'), c=1), lambda: T.Dict([('c', T.Int()), ('x', T.Dict([('a', T.Int())]))]))):
+    label = 'transform-field/use_value_spec/-/refused/%s' % cname
+    problem = None
+    try:
+      v = mkv(); before = plain(v)
+      try:
+        v.use_value_spec(mks(), allow_partial=True); problem = 'the content was accepted'
+      except (TypeError, ValueError, KeyError):
+        inner = [x for x in (v.sym_values() if isinstance(v, P.Dict) else []) if isinstance(x, (P.Dict, P.List))]
+        if v.value_spec is not None or any(x.value_spec is not None for x in inner): problem = 'the refused value stays bound to the spec it violates'
+        elif v.allow_partial: problem = 'the refused value keeps the allow_partial flag of the failed call'
+        elif not same_value_unordered(plain(v), before): problem = 'the content of the refused value changed: %s' % P.format(v, compact=True)[:60]
+    except Exception as e:      # pylint: disable=broad-except
+      problem = 'raised %s: %s' % (type(e).__name__, str(e)[:80])
+    out0.append((label, problem))
   kinds = [(n + '/' + tn, (lambda tr, mk=mk, t=t: mk(t if tr is not None else None)), good, bads)
            for n, mk, good, bads in kinds0 for tn, t in (('identity', ident), ('plain-copy', plain_tr))]
   out = []
